@@ -114,10 +114,16 @@ def main():
     ap.add_argument('--exclude', default='', help='comma list handed to the target as VERIF_FUZZ_EXCLUDE')
     ap.add_argument('--json', help='write the summary as JSON to this file')
     ap.add_argument('--build-only', action='store_true')
+    ap.add_argument('--exe', help='use this prebuilt libFuzzer binary instead of building the source')
+    ap.add_argument('--name', help='target name for a prebuilt binary')
+    ap.add_argument('--property', help='handed to the target as VERIF_FUZZ_PROPERTY')
     a = ap.parse_args()
 
-    src = a.source if os.path.isabs(a.source) else os.path.join(ROOT, a.source)
-    name, exe = build(src, a.extra_src)
+    if a.exe:
+        name, exe = a.name or os.path.basename(a.exe), a.exe
+    else:
+        src = a.source if os.path.isabs(a.source) else os.path.join(ROOT, a.source)
+        name, exe = build(src, a.extra_src)
     if a.build_only:
         print(exe)
         return 0
@@ -142,6 +148,8 @@ def main():
     env['UBSAN_OPTIONS'] = 'print_stacktrace=1'
     if a.exclude:
         env['VERIF_FUZZ_EXCLUDE'] = a.exclude
+    if a.property:
+        env['VERIF_FUZZ_PROPERTY'] = a.property
     before = set(os.listdir(arts))
     cmd = [exe, corpus, '-seed=%d' % (a.seed or 1), '-runs=%d' % a.runs, '-artifact_prefix=' + arts + '/', '-print_final_stats=1',
            '-max_len=%d' % a.max_len, '-timeout=%d' % a.timeout, '-detect_leaks=0', '-rss_limit_mb=4096']
